@@ -1,6 +1,7 @@
 package cluster
 
 import (
+	"verifsim/simkit"
 	"github.com/gorilla/mux"
 
 	weed_server "github.com/chrislusf/seaweedfs/weed/server"
@@ -41,6 +42,11 @@ func NewMaster(c MasterCfg) *Master {
 	name := c.Host + ":" + itoa(c.Port)
 	stub := NewRaftStub(name, ms.Topo)
 	stub.peers = []*RaftStub{stub}
+	// NewMasterServer has started the topology's background loops, which read Topo.RaftServer without
+	// synchronisation (as in production, where the field is set seconds later). Let them reach their first
+	// sleep before the field is written: on several threads a torn read of the interface value was observed
+	// about once in 50000 runs (a nil pointer inside a non-nil interface).
+	simkit.Wait()
 	ms.Topo.RaftServer = stub
 	return &Master{MS: ms, Router: r, Raft: stub, Addr: name}
 }
